@@ -184,6 +184,32 @@ fn guarded(op: &Value) -> Value {
     }
 }
 
+/// An argument of the form {"r": i} / {"r": i, "k": j} is replaced by the value (or its j-th component)
+/// that op #i of the same case returned, so that a case can feed what the library handed out (an id, an
+/// offset) back into a later call.  If op #i did not return Ok the argument becomes "" (strings) / 0.
+fn resolve_refs(op: &Value, out: &[Value]) -> Value {
+    match op {
+        Value::Array(a) => Value::Array(
+            a.iter()
+                .map(|x| match x {
+                    Value::Object(o) if o.contains_key("r") => {
+                        let i = o["r"].as_u64().unwrap_or(0) as usize;
+                        let v = out.get(i).and_then(|r| if r[0] == "o" { r.get(1) } else { None });
+                        let v = match (v, o.get("k")) {
+                            (Some(v), Some(k)) => v.get(k.as_u64().unwrap_or(0) as usize).cloned(),
+                            (Some(v), None) => Some(v.clone()),
+                            _ => None,
+                        };
+                        v.unwrap_or(Value::Null)
+                    }
+                    _ => x.clone(),
+                })
+                .collect(),
+        ),
+        _ => op.clone(),
+    }
+}
+
 /// Outcome of running part of a job in one session thread.
 struct Part {
     setup: Vec<Value>,
@@ -206,13 +232,14 @@ fn run_session(setup: Vec<Value>, cases: Vec<Vec<Value>>, keep_going: bool, max_
                 }
             }
             for case in cases.iter().take(max_cases) {
-                let mut out = Vec::with_capacity(case.len());
+                let mut out: Vec<Value> = Vec::with_capacity(case.len());
                 let mut dead = false;
                 for op in case {
                     if dead && !keep_going {
                         out.push(json!(["x"]));
                         continue;
                     }
+                    let op = &resolve_refs(op, &out);
                     let r = guarded(op);
                     if r[0] == "p" {
                         dead = true;
